@@ -207,6 +207,25 @@ pub fn families(thorough: bool, seed: u64) -> FamilyResult {
         push(&mut rng, 3 * k + 1, e, format!("chain of {k} diamonds"));
         k += if k < 10 { 2 } else { 6 };
     }
+    // a multi-path region plus so many functions without any edge that the whole
+    // graph has fewer edges than functions ("looks like a forest" by the counts)
+    for k in [8usize, 14, 20, 26, 32] {
+        let mut e = vec![];
+        for d in 0..k {
+            let a = 3 * d;
+            e.push((a, a + 1));
+            e.push((a, a + 2));
+            e.push((a + 1, a + 3));
+            e.push((a + 2, a + 3));
+        }
+        let iso = k + 2;
+        push(&mut rng, 3 * k + 1 + iso, e, format!("chain of {k} diamonds + {iso} functions without edges (edges < functions)"));
+    }
+    for l in [10usize, 20, 30, 40] {
+        let e = layered(2, l);
+        let iso = e.len() - 2 * l + 3;
+        push(&mut rng, 2 * l + iso, e, format!("layered width=2 layers={l} + {iso} functions without edges (edges < functions)"));
+    }
     // dense random DAGs
     let n_dense = if thorough { 60 } else { 20 };
     for k in 0..n_dense {
